@@ -9,33 +9,33 @@ open DS
 /-- the sketch `sk` is what some stream `items` of positive weights (any k, any fill, any draws) leaves behind -/
 def FromStream (sk : Sk Rat) (items : List (Int × Rat)) : Prop :=
   ∃ (T : Tunables) (k rf : Nat) (s0 : Sk Rat) (ds ds' : Draws Rat),
-    Sk.new T k rf false = some s0 ∧ (∀ p ∈ items, 0 < p.2) ∧ feed false items s0 ds = some (sk, ds')
+    Sk.new T k rf false = some s0 ∧ (∀ p ∈ items, 0 < p.2) ∧ feed T false items s0 ds = some (sk, ds')
 
 theorem FromStream.inv {sk : Sk Rat} {items : List (Int × Rat)} (h : FromStream sk items) :
-    ∃ ins L, Inv sk ins L ∧ sumW ins = totalW items ∧ sk.n = items.length := by
+    ∃ ins L, Inv sk ins L ∧ sumW ins = totalW items ∧ sk.n = items.length ∧ sk.gadget = false := by
   obtain ⟨T, k, rf, s0, ds, ds', h0, hpos, hf⟩ := h
-  obtain ⟨hinv0, _, _, _⟩ := new_inv T k rf false s0 h0
-  obtain ⟨s, ds2, L, hf', hinv, _, _, _, _⟩ := feed_spec false items s0 [] [] ds hinv0 hpos (by simp)
+  obtain ⟨hinv0, _, hg0, _⟩ := new_inv T k rf false s0 h0
+  obtain ⟨s, ds2, L, hf', hinv, _, hg, _, _⟩ := feed_spec T false items s0 [] [] ds hinv0 hpos (by simp)
   rw [hf] at hf'
   injection hf' with hf'; injection hf' with h1 h2
   subst h1
-  exact ⟨_, L, hinv, by rw [List.append_nil, sumW_entriesOf], by rw [hinv.n_eq]; simp [length_entriesOf]⟩
+  exact ⟨_, L, hinv, by rw [List.append_nil, sumW_entriesOf], by rw [hinv.n_eq]; simp [length_entriesOf], by rw [hg, hg0]⟩
 
-theorem unionAll_spec (inputs : List (Sk Rat × List (Int × Rat))) (hin : ∀ p ∈ inputs, FromStream p.1 p.2) :
-    ∀ (u : Un Rat) (insG LG : List E) (tot : Rat) (cnt : Nat) (ds : Draws Rat), UInv u insG LG tot cnt →
-    ∃ u' ds' insG' LG', unionAll u (inputs.map (·.1)) ds = some (u', ds') ∧
+theorem unionAll_spec (T : Tunables) (inputs : List (Sk Rat × List (Int × Rat))) (hin : ∀ p ∈ inputs, FromStream p.1 p.2) :
+    ∀ (u : Un Rat) (insG LG : List E) (tot : Rat) (cnt : Nat) (ds : Draws Rat), UInv u insG LG tot cnt → TauBook u insG →
+    ∃ u' ds' insG' LG', unionAll T u (inputs.map (·.1)) ds = some (u', ds') ∧
       UInv u' insG' LG' (tot + sumR (inputs.map (fun p => totalW p.2))) (cnt + (inputs.map (fun p => p.2.length)).sum) ∧
-      u'.maxK = u.maxK := by
+      u'.maxK = u.maxK ∧ TauBook u' insG' := by
   induction inputs with
   | nil =>
-    intro u insG LG tot cnt ds hu
-    exact ⟨u, ds, insG, LG, rfl, by simpa [sumR] using hu, rfl⟩
+    intro u insG LG tot cnt ds hu hb
+    exact ⟨u, ds, insG, LG, rfl, by simpa [sumR] using hu, rfl, hb⟩
   | cons p t ih =>
-    intro u insG LG tot cnt ds hu
-    obtain ⟨ins, L, hinv, htot, hn⟩ := (hin p (by simp)).inv
-    obtain ⟨u1, ds1, insG1, LG1, hup, hu1, hk1⟩ := unUpdate_spec u insG LG tot cnt hu p.1 ins L hinv ds
-    obtain ⟨u2, ds2, insG2, LG2, hall, hu2, hk2⟩ := ih (fun q hq => hin q (by simp [hq])) u1 insG1 LG1 _ _ ds1 hu1
-    refine ⟨u2, ds2, insG2, LG2, ?_, ?_, by rw [hk2, hk1]⟩
+    intro u insG LG tot cnt ds hu hb
+    obtain ⟨ins, L, hinv, htot, hn, _⟩ := (hin p (by simp)).inv
+    obtain ⟨u1, ds1, insG1, LG1, hup, hu1, hk1, hb1⟩ := unUpdate_spec T u insG LG tot cnt hu hb p.1 ins L hinv ds
+    obtain ⟨u2, ds2, insG2, LG2, hall, hu2, hk2, hb2⟩ := ih (fun q hq => hin q (by simp [hq])) u1 insG1 LG1 _ _ ds1 hu1 hb1
+    refine ⟨u2, ds2, insG2, LG2, ?_, ?_, by rw [hk2, hk1], hb2⟩
     · simp only [List.map_cons, unionAll, hup, hall]
     · have e1 : tot + sumW ins + sumR (t.map (fun p => totalW p.2)) = tot + sumR ((p :: t).map (fun p => totalW p.2)) := by
         simp [sumR, htot]; ring
@@ -43,8 +43,23 @@ theorem unionAll_spec (inputs : List (Sk Rat × List (Int × Rat))) (hin : ∀ p
         simp [hn]; omega
       rw [← e1, ← e2]; exact hu2
 
+theorem newUnion_book (T : Tunables) (maxK : Nat) (u0 : Un Rat) (h : Un.new T maxK = some u0) : TauBook u0 [] := by
+  unfold Un.new at h
+  split at h
+  · injection h with h
+    subst h
+    exact ⟨Nat.le_refl _, fun _ => by simp [sumW]⟩
+  · exact absurd h (by simp)
+
 /-- sample tunables for the non-vacuity examples (the theorems hold for every value) -/
-def exT : Tunables := ⟨2147483646, 3, 3, 2, 1, 1, 10000000000, []⟩
+def exT : Tunables :=
+  { maxK := 2147483646, minLgArrItems := 3, defaultRf := 3, kappaNum := 2, kappaDen := 1, tolNum := 1, tolDen := 10000000000,
+    erfA := [] }   -- all source-shape flags false: the tree the checks were first built on
+
+/-- the same tunables with every repaired source shape switched on (the tree after the six `fix:` commits) -/
+def exTR : Tunables :=
+  { exT with deserializeM0 := true, validModeSlack := true, slackNum := 1, slackDen := 1000000000000,
+             coercerOuterTau := true, coercerHeapify := true, coercerRelTol := true }
 -- concrete inputs for the examples and the witnesses below
 def wDs : Draws Rat := ⟨[1/2, 1/2, 1/2, 1/2, 1/2, 1/2], [1, 1, 1, 1, 1, 1]⟩
 def wNew (k : Nat) : Sk Rat := ((Sk.new exT k 0 false : Option (Sk Rat)).getD
@@ -52,17 +67,17 @@ def wNew (k : Nat) : Sk Rat := ((Sk.new exT k 0 false : Option (Sk Rat)).getD
 def wItemsA : List (Int × Rat) := [(1, 10), (2, 10), (3, 10)]
 def wItemsB : List (Int × Rat) := [(4, 1)]
 /-- k = 2 sketch after three items of weight 10: h = 0, r = 2, tau = 15 -/
-def wA : Sk Rat := ((feed false wItemsA (wNew 2) wDs).getD (wNew 2, wDs)).1
+def wA : Sk Rat := ((feed exT false wItemsA (wNew 2) wDs).getD (wNew 2, wDs)).1
 /-- k = 10 sketch holding one item of weight 1 (exact mode) -/
-def wB : Sk Rat := ((feed false wItemsB (wNew 10) wDs).getD (wNew 10, wDs)).1
+def wB : Sk Rat := ((feed exT false wItemsB (wNew 10) wDs).getD (wNew 10, wDs)).1
 
 theorem wA_fromStream : FromStream wA wItemsA :=
-  ⟨exT, 2, 0, wNew 2, wDs, ((feed false wItemsA (wNew 2) wDs).getD (wNew 2, wDs)).2, rfl, by decide, rfl⟩
+  ⟨exT, 2, 0, wNew 2, wDs, ((feed exT false wItemsA (wNew 2) wDs).getD (wNew 2, wDs)).2, rfl, by decide, rfl⟩
 theorem wB_fromStream : FromStream wB wItemsB :=
-  ⟨exT, 10, 0, wNew 10, wDs, ((feed false wItemsB (wNew 10) wDs).getD (wNew 10, wDs)).2, rfl, by decide, rfl⟩
+  ⟨exT, 10, 0, wNew 10, wDs, ((feed exT false wItemsB (wNew 10) wDs).getD (wNew 10, wDs)).2, rfl, by decide, rfl⟩
 
 def wU0 : Un Rat := ((Un.new exT 10 : Option (Un Rat)).getD ⟨0, 0, 0, 0, wNew 1⟩)
-def wU : Un Rat := ((unionAll wU0 [wA, wB] wDs).getD (wU0, wDs)).1
+def wU : Un Rat := ((unionAll exT wU0 [wA, wB] wDs).getD (wU0, wDs)).1
 def wRes : Sk Rat := ((wU.getResult exT wDs).getD (wNew 1, wDs)).1
 
 def wA2 : Sk Rat := ((serdeRoundTrip exT wA).getD wA)
